@@ -36,6 +36,8 @@ type MemStore struct {
 	ReadChunks int
 	// NoCRC makes GetAttr report CRC32C==0 (like localfs)
 	NoCRC bool
+	// EOFWithData makes readers return io.EOF together with the last bytes (both shapes are legal io.Reader behaviour)
+	EOFWithData bool
 }
 
 // Obj is one stored object.
@@ -88,9 +90,10 @@ func (m *MemStore) Has(_ context.Context, key string) (bool, error) {
 }
 
 type memReader struct {
-	data   []byte
-	pos    int
-	chunks int
+	data    []byte
+	pos     int
+	chunks  int
+	eofData bool
 }
 
 func (r *memReader) Read(p []byte) (int, error) {
@@ -116,6 +119,9 @@ func (r *memReader) Read(p []byte) (int, error) {
 	}
 	copy(p, r.data[r.pos:r.pos+n])
 	r.pos += n
+	if r.eofData && r.pos >= len(r.data) {
+		return n, io.EOF
+	}
 	return n, nil
 }
 
@@ -139,7 +145,7 @@ func (m *MemStore) Get(_ context.Context, key string) (io.ReadCloser, error) {
 	if !ok {
 		return nil, NotExists(key)
 	}
-	return &memReader{data: append([]byte(nil), o.Data...), chunks: m.ReadChunks}, nil
+	return &memReader{data: append([]byte(nil), o.Data...), chunks: m.ReadChunks, eofData: m.EOFWithData}, nil
 }
 
 func (m *MemStore) GetAt(_ context.Context, key string) (io.ReaderAt, error) {
@@ -313,7 +319,7 @@ func (m *MemStore) Clone() *MemStore {
 	m.mu.Lock()
 	defer m.mu.Unlock()
 	c := NewMemStore(m.Name)
-	c.ReadChunks, c.NoCRC, c.NoJournal = m.ReadChunks, m.NoCRC, m.NoJournal
+	c.ReadChunks, c.NoCRC, c.NoJournal, c.EOFWithData = m.ReadChunks, m.NoCRC, m.NoJournal, m.EOFWithData
 	for k, o := range m.objs {
 		c.objs[k] = &Obj{Data: append([]byte(nil), o.Data...), Created: o.Created, Updated: o.Updated}
 	}
